@@ -93,7 +93,8 @@ def populate_world_from_dict(world: World, world_dict: dict):
     Processors are instantiated and added before entitites.
     """
     processors = world_dict.get('processors', [])
-    entities = world_dict.get('entities', [])
+    # Walked twice (any iterable is accepted, one-shot ones included)
+    entities = list(world_dict.get('entities', []))
 
     for processor_dict in processors:
         world.add_processor(
